@@ -251,6 +251,7 @@ type World struct {
 	actors []*actor
 
 	stepTarget    string // instance the current step is directed to
+	curEvent      string // name of the event being executed
 	providerCalls int
 
 	fineOn   bool
